@@ -795,7 +795,7 @@ def e2_archetypes_eq(prog):
 ENTITY_OPS = ('insert', 'extend', 'remove', 'clear', 'reserve', 'shrink_to_fit', 'contains', 'entry', 'len', 'is_empty', 'run_system', 'run_par_system')
 
 
-@rule('R1', props=['C15', 'C10'], floor=10, configs=('all', 'default'))
+@rule('R1', props=['C15', 'C10', 'C16'], floor=10, configs=('all', 'default'))
 def r1_who_touches_resources(prog):
     """World.resources is read only by the resource accessors, queries/systems (resource views), Clone,
     PartialEq, Debug, Serialize/Deserialize; it is written (mutable projection or assignment) only by
@@ -885,7 +885,7 @@ def r1_who_touches_resources(prog):
 
 
 # -------------------------------------------------------------------------------------------------
-@rule('P6', props=['C13', 'C01', 'C10', 'C06'], floor=5, configs=('all', 'default'))
+@rule('P6', props=['C13', 'C01', 'C10', 'C06', 'C16'], floor=5, configs=('all', 'default'))
 def p6_world_len(prog):
     """World.len is assigned only by the operations that change the population, with the matching delta
     on the same paths as the structural change: insert +1 (with Archetype::push), extend +batch len
